@@ -278,6 +278,20 @@ fn climber(t: &Table) -> Option<PrecClimber<u8>> {
     Some(PrecClimber::new(levels))
 }
 
+/// The same table through `PrecClimber::new_const` (feature const_prec_climber), whose entries
+/// "don't have to be ordered in any way": natural and reversed order.
+fn const_climbers(t: &Table) -> Vec<PrecClimber<u8>> {
+    if climber(t).is_none() {
+        return vec![];
+    }
+    let entries: Vec<(u8, u32, prec_climber::Assoc)> = t.iter().enumerate().map(|(i, o)| (i as u8 + 1, o.level as u32, if o.kind == Kind::InfixL { prec_climber::Assoc::Left } else { prec_climber::Assoc::Right })).collect();
+    let mut rev = entries.clone();
+    rev.reverse();
+    let mut rot = entries.clone();
+    rot.rotate_left(1);
+    [entries, rev, rot].into_iter().map(|e| PrecClimber::new_const(Box::leak(e.into_boxed_slice()))).collect()
+}
+
 fn table_json(t: &Table) -> Value {
     json!(t.iter().enumerate().map(|(i, o)| format!("o{}:{:?}@level{}", i + 1, o.kind, o.level)).collect::<Vec<_>>())
 }
@@ -285,6 +299,7 @@ fn table_json(t: &Table) -> Value {
 fn check_table(t: &Table, k: usize, stats: &mut Stats) {
     let pp = pratt(t);
     let pc = climber(t);
+    let pcc = const_climbers(t);
     let seqs = sequences(t, k);
     stats.inc("tables");
     for seq in &seqs {
@@ -316,6 +331,19 @@ fn check_table(t: &Table, k: usize, stats: &mut Stats) {
             stats.inc("prec_climber_evaluations");
             if gotp.as_deref() != Ok(want.as_str()) {
                 report(stats, "prec-climber-differs", &gotp);
+            }
+        }
+        for (ci, pc) in pcc.iter().enumerate() {
+            let gotp = catch(|| {
+                pc.climb(
+                    build_pairs(&input, seq),
+                    |p| format!("n{}", p.as_span().start()),
+                    |l: String, o, r: String| format!("({l} o{}@{} {r})", o.as_rule(), o.as_span().start()),
+                )
+            });
+            stats.inc("prec_climber_evaluations");
+            if gotp.as_deref() != Ok(want.as_str()) {
+                report(stats, ["const-prec-climber-differs", "const-prec-climber-reversed-table-differs", "const-prec-climber-rotated-table-differs"][ci], &gotp);
             }
         }
         // vacuity control: shape classes of the expected tree
